@@ -54,6 +54,12 @@ def cap_tables(path=CAP_LEAN):
     return sens, benign, exempt, spawners, caps
 
 
+def _benign_ordered(path=CAP_LEAN):
+    src = open(path).read()
+    m = re.search(r'^def benign\b[^\n]*:=\s*\[(.*?)^\s*$', src, re.S | re.M)
+    return re.findall(r'"([^"]+)"', re.sub(r'--[^\n]*', '', m.group(1)))
+
+
 # ----------------------------------------------------------------------------------------- helpers on IR
 def norm_type(t):
     t = ATTR.sub('', t)
@@ -237,7 +243,8 @@ def extract(build, ir_text=None):
     for g, init in mod.globals.items():
         if re.match(r'external\s', init) and not g.startswith("llvm."):
             ext_vars.add(g)
-    M.externals = sorted(mod.declared | ext_vars)
+    M.externals = sorted(x for x in (mod.declared | ext_vars) if not x.startswith("llvm."))   # llvm.*: compiler intrinsics
+    M.all_known = list(sens) + _benign_ordered()
     fdefs = mod.functions
     # sensitive names may also be *defined* functions (the FFI trampoline)
     sens_names = set(sens)
@@ -517,6 +524,8 @@ def check(M, C):
                 bad.append(dict(kind="edge-fn", fn=name, node=n))
         if C.pure[fn] and (op[0] == "havoc" or (op[0] == "call" and not C.pure[op[1]])):
             bad.append(dict(kind="pure", fn=name, node=n))
+        if 0 in k:
+            continue          # "false" is known here: the node is unreachable, nothing to check
         if op[0] in ("nop", "libc"):
             for s in succ:
                 if not all(_imp(g, k) for g in C.K[s]):
@@ -526,8 +535,8 @@ def check(M, C):
                 if not all((g & op[1]) != 0 or _imp(g, k) for g in C.K[s]):
                     bad.append(dict(kind="edge", fn=name, node=n, to=s))
         if op[0] == "havoc":
-            for s in succ:     # only "false" (a zero group) survives a change of the flag word
-                if C.K[s] and 0 not in k:
+            for s in succ:
+                if C.K[s]:
                     bad.append(dict(kind="edge", fn=name, node=n, to=s))
         if op[0] == "call":
             g = op[1]
@@ -594,6 +603,8 @@ def render(M, C, origin="current tree"):
     o.append("abbrev flagWrites : List (String × String) := [" + ", ".join("(%s, %s)" % (_lstr(a), _lstr(b)) for a, b in M.flag_writes) + "]\n")
     o.append("/-- functions that execute an overwrite of the whole VM state and are reachable (direct calls) from an address-taken function -/")
     o.append("abbrev externals : List String := [" + ", ".join(_lstr(x) for x in M.externals) + "]\n")
+    o.append("/-- untrusted: index of each external in `Cap.allKnown` (an unclassified symbol gets an index past the end) -/")
+    o.append("abbrev externalsIdx : List Nat := " + _lnat_list([M.all_known.index(x) if x in M.all_known else len(M.all_known) for x in M.externals]) + "\n")
     o.append("abbrev fnNames : Array String := #[" + ", ".join(_lstr(x) for x in M.slice) + "]\n")
     o.append("/-- entry node of each function of the slice -/")
     o.append("abbrev fnEntry : Array Nat := #" + _lnat_list(M.entries_of) + "\n")
@@ -614,22 +625,18 @@ def render(M, C, origin="current tree"):
         if t[0] == "ret":
             return ".ret"
         raise ValueError(t)
-    o.append("abbrev nodes : Array Node := #[")
-    lines = []
-    cur = None
-    for n, (fn, t, succ) in enumerate(M.nodes):
-        pre = ""
-        if fn != cur:
-            cur = fn
-            pre = "  -- %s (fn %d, first node %d)\n" % (M.slice[fn], fn, n)
-        lines.append("%s  ⟨%d, %s, %s⟩" % (pre, fn, op(t), _lnat_list(succ)))
-    o.append(",\n".join(lines) + "]\n")
-    o.append("abbrev graph : Graph := ⟨nodes, fnEntry, entryFns⟩\n")
+
+    def chunked(items):
+        return "#[" + ",\n  ".join("#[" + ", ".join(items[i:i + 32]) + "]" for i in range(0, len(items), 32)) + "]"
+    o.append("/-- node n = nodeChunks[n / 32][n % 32];  ⟨function, event, successors⟩.  First node of each function:")
+    o.append("    " + ", ".join("%s=%d" % (n, e) for n, e in zip(M.slice, M.entries_of)) + " -/")
+    o.append("abbrev nodeChunks : Array (Array Node) := " + chunked(["⟨%d, %s, %s⟩" % (fn, op(t), _lnat_list(succ)) for fn, t, succ in M.nodes]) + "\n")
+    o.append("abbrev graph : Graph := ⟨%d, chunkGet nodeChunks ⟨0, .nop, []⟩, fun f => fnEntry.getD f 0, entryFns⟩\n" % len(M.nodes))
     o.append("/-- UNTRUSTED certificate (checked by `certOK`) -/")
-    o.append("abbrev certK : Array (List Nat) := #[" + ", ".join(_lnat_list(k) for k in C.K) + "]\n")
+    o.append("abbrev certK : Array (Array (List Nat)) := " + chunked([_lnat_list(k) for k in C.K]) + "\n")
     o.append("abbrev certPre : Array (List Nat) := #[" + ", ".join(_lnat_list(k) for k in C.fpre) + "]\n")
     o.append("abbrev certPost : Array (List Nat) := #[" + ", ".join(_lnat_list(k) for k in C.post) + "]\n")
     o.append("abbrev certPure : Array Bool := #[" + ", ".join("true" if p else "false" for p in C.pure) + "]\n")
-    o.append("abbrev cert : Cert := ⟨certK, certPre, certPost, certPure⟩\n")
+    o.append("abbrev cert : Cert := ⟨chunkGet certK [], fun f => certPre.getD f [], fun f => certPost.getD f [], fun f => certPure.getD f false⟩\n")
     o.append("end JanetModel.Gen.Sandbox")
     return "\n".join(o) + "\n"
